@@ -47,7 +47,7 @@ static const int sets[][SW] = { SETS };
 #define FINV m8_inv
 #endif
 static uint32_t G[N][K], A[K][K], INV[K][K];
-static uint8_t fresh[N][PB], expect[N][PB];
+static uint8_t fresh[N][PB], expect[N][PB], expectf[N][PB];
 static int model_invert(void)
 {
     for (int i = 0; i < K; i++) for (int j = 0; j < K; j++) INV[i][j] = (i == j);
@@ -142,9 +142,32 @@ int main(void)
         for (int i = 0; i < N; i++) for (int b = 0; b < PB; b++) { orig[i][b] = gone(miss, i) ? 0 : fresh[i][b]; expect[i][b] = orig[i][b]; }
         for (int i = 0; i < K; i++) if (gone(miss, i)) for (int l = 0; l < K; l++) axpy(expect[i], fresh[surv[l]], INV[i][l]);
         for (int i = K; i < N; i++) if (gone(miss, i)) for (int j = 0; j < K; j++) axpy(expect[i], expect[j], G[i][j]);
-#define ORIG expect
+        /* the same parity values with the coefficients flattened onto the survivors
+         * (sum_l (sum_j G[p][j]*M[j][l]) * surv_l): algebraically equal to the nested form above, but the solver
+         * only finds the equality quickly when the reference has the structure the code under test uses:
+         * rs_vand decode re-encodes parity from the rebuilt data (nested); rs_vand reconstruct and the ISA-L
+         * adapters fold everything into one coefficient row (flattened) */
+        for (int i = 0; i < N; i++) for (int b = 0; b < PB; b++) expectf[i][b] = expect[i][b];
+        for (int i = K; i < N; i++) if (gone(miss, i)) {
+            for (int b = 0; b < PB; b++) expectf[i][b] = 0;
+            for (int l = 0; l < K; l++) {
+                uint32_t c = 0;
+                for (int j = 0; j < K; j++) {
+                    uint32_t mjl = gone(miss, j) ? INV[j][l] : (uint32_t)(surv[l] == j);
+                    c ^= FMUL(G[i][j], mjl);
+                }
+                axpy(expectf[i], fresh[surv[l]], c);
+            }
+        }
+#if BE == 6
+#define ORIG expect      /* decode: nested */
+#else
+#define ORIG expectf     /* ISA-L: flattened */
+#endif
+#define ORIGR expectf       /* reconstruct: flattened for every code */
 #else
 #define ORIG orig
+#define ORIGR orig
 #endif
         load(data, parity, miss);
 #ifdef FORCE_SINGULAR
@@ -183,10 +206,10 @@ int main(void)
 #else
             CHECK(rc == 0, "reconstruct within tolerance must succeed");
             int ok = 1;
-            for (int b = 0; b < PB; b++) ok &= (work[d][b] == ORIG[d][b]);
+            for (int b = 0; b < PB; b++) ok &= (work[d][b] == ORIGR[d][b]);
             CHECK(ok, "reconstructed fragment differs from the original");
             for (int i = 0; i < N; i++)
-                if (!gone(sets[s], i)) { int same = 1; for (int b = 0; b < PB; b++) same &= (work[i][b] == ORIG[i][b]); CHECK(same, "reconstruct modified a surviving fragment"); }
+                if (!gone(sets[s], i)) { int same = 1; for (int b = 0; b < PB; b++) same &= (work[i][b] == ORIGR[i][b]); CHECK(same, "reconstruct modified a surviving fragment"); }
 #endif
         }
 #endif
